@@ -25,6 +25,18 @@ degrees) the check enumerates
   the transformed node coordinates at every stage; signatures carry '|after=query+rotate...'.  A quadtree built
   before a transform is stale by contract and is never used after it.
 
+* edit histories (both tiers): on ONE object of rect, g7 (thorough: g5), for every edit in {refine([target]),
+  delete_column(target) + index set-up, reduce(all but target and its neighbours), split_column(target)} x target in
+  {corner, centre, right-hand side}: a query pass that ends in the target column (lines, a coarse point lattice, the
+  3x3 lattices and the 3-D sets of the target's neighbours and finally of the target), the edit, then the SAME
+  items in reverse order (the removed / reshaped target's points and 3-D positions first), then the lattices and
+  3-D sets of every column of the edited geometry that overlaps the old target; reference, bounds and quadtrees are
+  rebuilt from the edited object; signatures carry '|after=query+<edit>'.
+* surface routes (3-D part, both tiers): the same final column surfaces reached by {assignment on a fresh geometry |
+  low surfaces read from a file | lowered (with set_column_num_layers) | lowered then refine_layers() | lowered then
+  copy_layers_from()} followed by raising them with plain assignment col.surface = ... and the index set-up; then
+  the full elevation set of every column; signatures carry '|route=<route>'.
+
 Oracle = the property statement, evaluated with the exact reference geometry ref/geo_c12.py (integer
 arithmetic on the node coordinates; nothing under test is called by it).
 """
@@ -49,7 +61,9 @@ RULE = ('per geometry: every point of the shifted 41x41 lattice over the enlarge
         'one interior point x the elevation set x {no quadtree, quadtree}; every ordered pair of lattice points as a '
         'line, not within tolerance of a node; and on one object of rect, g7 (thorough: g5) the sequences query, '
         'rotate(30), translate, rotate(-75) and query, translate, rotate(90) with a reduced query pass (21x21 points x '
-        'single aids, all columns x elevations, 5x5 line lattice) after every step. A case is distinct by (geometry, point or line or (column, elevation), '
+        'single aids, all columns x elevations, 5x5 line lattice) after every step; 4 edits x 3 target columns as query '
+        '-> edit -> same queries in reverse order (+ the edited neighbourhood); 5 routes to the same column surfaces x '
+        'every column x the elevation set. A case is distinct by (geometry, point or line or (column, elevation), '
         'aid combination); a point case is non-trivial when the point is inside the bounding box, a line case when the '
         'line crosses at least one column')
 ASSUMPTIONS = [
@@ -70,6 +84,12 @@ ASSUMPTIONS = [
     'history units: a quadtree is always built on the object as it is at that stage (one built before a transform is '
     'stale by contract and not asserted on); the reference is recomputed from the transformed node coordinates, '
     'layer elevations and column surfaces',
+    'a column surface may be set by plain assignment col.surface = value followed by setup_block_name_index() / '
+    'setup_block_connection_name_index(): the user documentation lists surface as an ordinary column property and never '
+    'mentions set_column_num_layers(); the blocks of the geometry (block_name_list, block_surface, block_volume) are '
+    'defined by col.surface alone',
+    'delete_column() is followed by the two index set-ups (the primitive does not refresh them: F15); refine(), '
+    'reduce() and split_column() refresh them themselves',
     'refine() and rotate() are used only to build geometries; refined columns are labelled name-free (rank by '
     'centre) because refine() names new columns in set order',
 ]
@@ -79,15 +99,20 @@ BOUNDS = {
               'aids': 'every single aid and every pair of aids (pairs and vertex-aligned points use the reduced guess set: '
                       'true/nearest column, its neighbours, the farthest column)',
               'line_lattice': '7x7 (2352 ordered pairs per geometry)',
-              'guess': 'every column when the geometry has <= 120 columns', 'elevations': 'full set, every column',
-              'histories': 'rect, g7 x 2 transform sequences (3 and 2 in-place transforms), query pass after every step'},
+              'guess': 'every column when the geometry has <= 120 columns (41x41 lattice: on the points with i+j even; '
+                       'all points of the per-column lattices)', 'elevations': 'full set, every column',
+              'histories': 'rect, g7 x 2 transform sequences (3 and 2 in-place transforms), query pass after every step',
+              'edit_histories': 'rect, g7 x {refine, delete_column, reduce, split_column} x {corner, centre, side} target',
+              'surface_routes': 'rect43, g7 (rect43 = 4x3 rectangular, 5 layers) x 5 routes x every column x elevation set'},
     'thorough': {'geometries': ['rect', 'rect_rr', 'g7', 'g7_rr', 'g5', 'g5_rr', 'g1', 'g1_rr'],
                  'point_lattice': '41x41 + 3x3 per column + 9 vertex-aligned points per node',
                  'aids': 'every single aid and every pair of aids (pairs and vertex-aligned points use the reduced guess '
                          'set: true/nearest column, its neighbours, the farthest column)',
                  'line_lattice': '9x9 (6480 ordered pairs per geometry)',
                  'guess': 'every column when the geometry has <= 120 columns', 'elevations': 'full set, every column',
-                 'histories': 'rect, g7, g5 x 2 transform sequences (3 and 2 in-place transforms), query pass after every step'},
+                 'histories': 'rect, g7, g5 x 2 transform sequences (3 and 2 in-place transforms), query pass after every step',
+              'edit_histories': 'rect, g7, g5 x {refine, delete_column, reduce, split_column} x {corner, centre, side} target',
+              'surface_routes': 'rect43, g7, g5 (rect43 = 4x3 rectangular, 5 layers) x 5 routes x every column x elevation set'},
 }
 TECHNIQUE = ('lattice enumeration (E3) of points x search-aid combinations, 3-D points and lines on the real mulgrid '
              'methods against an exact integer-arithmetic reference geometry')
@@ -113,6 +138,16 @@ CASE_LIMIT = 20.0          # seconds per library call; backstop only (a call tak
 HIST = {'A': [('rotate', 30.0), ('translate', (123.4, -56.7, 7.5)), ('rotate', -75.0)],
         'B': [('translate', (-1000.25, 2000.5, -3.0)), ('rotate', 90.0)]}
 HGEOS = {'quick': [('rect', 2), ('g7', 10)], 'thorough': [('rect', 2), ('g7', 10), ('g5', 16)]}   # (geometry, parts)
+# edit histories: query (ending at the target column) -> edit that removes / reshapes the target -> the same
+# queries again, the target's first; (geometry, [edit kinds]); targets: 'corner', 'centre', 'side'
+EDITS = ('refine', 'delete_column', 'reduce', 'split_column')
+ETARGETS = ('corner', 'centre', 'side')
+EGEOS = {'quick': ['rect', 'g7'], 'thorough': ['rect', 'g7', 'g5']}
+NLINE_E = 3                # line lattice of an edit-history pass
+ESTEP = 5                  # an edit-history pass uses every ESTEP-th row and column of the point lattice
+# surface routes (3-D part): how the column surfaces and the cached col.num_layers were arrived at
+SROUTES = ('fresh-assigned', 'file-raised', 'lowered-raised', 'refine_layers-raised', 'copy_layers_from-raised')
+SGEOS = {'quick': ['rect43', 'g7'], 'thorough': ['rect43', 'g7', 'g5']}
 NLINE_H = 5                # line lattice of a history pass
 HSTEP = 2                  # a history pass uses every HSTEP-th row and column of the 41x41 point lattice
 MAX_TIMEOUTS = 2           # a work unit stops exploring after this many timeouts (reported; evidence then says cap_hit)
@@ -178,7 +213,7 @@ def _library_geometry(name):
 class Ctx(object):
     """One geometry: the library object, the reference mesh, the lattices and the search aids."""
 
-    def __init__(self, name, nline, geo=None):
+    def __init__(self, name, nline, geo=None, old=None):
         """geo given: describe THAT library object as it is now (history units: the same object is queried,
         transformed in place and described again from its transformed node coordinates)."""
         import numpy as np
@@ -186,8 +221,6 @@ class Ctx(object):
         self.name = name
         if geo is None:
             geo, old = _library_geometry(name)
-        else:
-            old = None
         self.geo = geo
         cols = list(geo.columnlist)
         polys = dict((id(c), [(float(n.pos[0]), float(n.pos[1])) for n in c.node]) for c in cols)
@@ -386,6 +419,15 @@ def units(tier):
         for seq in sorted(HIST):
             for part in range(nparts):
                 us.append(('H' + seq, g, part, nparts))
+    for g in EGEOS[tier]:
+        for e in EDITS:
+            for t in ETARGETS:
+                us.append(('E', g, e, t))
+    for g in SGEOS[tier]:
+        for r in SROUTES:
+            if g != 'rect43' and r == 'fresh-assigned':
+                continue          # a geometry read from a file is never 'fresh'
+            us.append(('S', g, r, 0))
     return us
 
 
@@ -474,6 +516,8 @@ def point_query(ctx, p, T, spec, acls):
 
 
 def do_point(ctx, pid, p, tier, rec, pairs=True, all_guesses=True, tag='points'):
+    if all_guesses and tier == 'quick' and pid[0] == 'G' and (pid[1] + pid[2]) % 2:
+        all_guesses = False     # quick: every column as guess on the even half of the 41x41 lattice only
     inside, ratio = ctx.mesh.locate(p)
     if ratio < 1.0:
         rec.count(tag + '_excluded_near_edge')
@@ -553,7 +597,7 @@ def interior_point(ctx, ci):
 
 def block_query(ctx, ci, p, z, zc, q):
     np = ctx.np
-    k = ctx.ref_block(ci, z)
+    k = ctx.ref_block(ci, z) if ci is not None else None
     want = None if k is None else block_name_ref(ctx.geo.convention, ctx.cols[ci].name, ctx.lay[k][0])
     try:
         with core.timelimit(CASE_LIMIT), quiet():
@@ -566,6 +610,11 @@ def block_query(ctx, ci, p, z, zc, q):
                  'raised %r for %r' % (e, (p, z)))], 'raised'
     if got == want:
         return [], ('block' if want is not None else 'none')
+    if ci is None:
+        return [('C12|block_name_containing_point|block-for-point-outside-every-column|%s|qtree=%s'
+                 % (ctx.name, 'all' if q else 'none'),
+                 'point (%r, %r, %r) is outside every column; library returned %r' % (p[0], p[1], z, got))], \
+            'block-for-point-outside-every-column'
     s = ctx.surface[ci]
     ks = [kk for kk in range(1, len(ctx.lay)) if ctx.lay[kk][1] < s]
     air = None
@@ -804,25 +853,28 @@ class RecTag(object):
     """Recorder view of one stage of a history: keys, counters and signatures carry the stage, the case carries what
     is needed to re-create the state (sequence, stage, part)."""
 
-    def __init__(self, rec, seq, stage, after, part, nparts):
+    def __init__(self, rec, seq, stage, after, part, nparts, hist=None, suffix=None, prefix='history'):
         self.rec, self.seq, self.stage, self.after, self.part, self.nparts = rec, seq, stage, after, part, nparts
+        self.hist = hist if hist is not None else {'seq': seq, 'stage': stage, 'part': part, 'nparts': nparts}
+        self.suffix = suffix if suffix is not None else '|after=' + after
+        self.prefix = prefix
         self.counters = rec.counters
         self.notes = rec.notes
 
     def case(self, key, nontrivial=True, outcome=None):
-        self.rec.case(('H', self.seq, self.stage, key), nontrivial=nontrivial,
-                      outcome=None if outcome is None else 'history-' + outcome)
+        self.rec.case((self.prefix, self.seq, self.stage, key), nontrivial=nontrivial,
+                      outcome=None if outcome is None else self.prefix + '-' + outcome)
 
     def count(self, name, n=1):
-        self.rec.count(name if name in ('timeouts', 'cap_hit') else 'history:' + name, n)
+        self.rec.count(name if name in ('timeouts', 'cap_hit') else self.prefix + ':' + name, n)
 
     def sample(self, obj, force=False):
         self.rec.sample(obj, force)
 
     def violation(self, sig, what, case):
         case = dict(case)
-        case['hist'] = {'seq': self.seq, 'stage': self.stage, 'part': self.part, 'nparts': self.nparts}
-        self.rec.violation(sig + '|after=' + self.after, 'after %s on the same geometry object: %s' % (self.after, what), case)
+        case['hist'] = self.hist
+        self.rec.violation(sig + self.suffix, '%s on the same geometry object: %s' % (self.suffix[1:], what), case)
 
 
 def apply_step(geo, step):
@@ -883,6 +935,184 @@ def note_timeout(rec):
         raise UnitAborted()
 
 
+# ---- edit histories ---------------------------------------------------------------------------
+
+def edit_target(ctx, which):
+    """canonical index of the target column: nearest the lower-left corner / the centre / the middle of the
+    right-hand side of the bounding box, among quadrilaterals all of whose neighbours have 3 or 4 nodes"""
+    bb = ctx.bb
+    ref = {'corner': (bb[0], bb[1]), 'centre': (0.5 * (bb[0] + bb[2]), 0.5 * (bb[1] + bb[3])),
+           'side': (bb[2], 0.5 * (bb[1] + bb[3]))}[which]
+    ok = [i for i in range(ctx.n) if len(ctx.polys[i]) == 4 and all(len(ctx.polys[j]) in (3, 4) for j in ctx.nbr[i])]
+    return min(ok, key=lambda i: (math.hypot(ctx.vc[i][0] - ref[0], ctx.vc[i][1] - ref[1]), ctx.labels[i]))
+
+
+def apply_edit(ctx, kind, ti):
+    geo = ctx.geo
+    col = ctx.cols[ti]
+    with quiet():
+        if kind == 'refine':
+            geo.refine([col])
+        elif kind == 'delete_column':
+            geo.delete_column(col.name)
+            geo.setup_block_name_index()
+            geo.setup_block_connection_name_index()
+        elif kind == 'reduce':
+            gone = set([ti]) | ctx.nbr[ti]
+            geo.reduce([c for i, c in enumerate(ctx.cols) if i not in gone])
+        elif kind == 'split_column':
+            if not geo.split_column(col.name, col.node[0].name):
+                raise core.HarnessError('split_column refused column %r' % col.name)
+        else:
+            raise ValueError(kind)
+
+
+def edit_items(ctx, ti):
+    """The query items of an edit history, in the order of the pass before the edit: lines, global points, then
+    the neighbourhood of the target, the target column itself last (points, then its 3-D set)."""
+    items = [('lines',)]
+    for j in range(0, NP, ESTEP):
+        for i in range(0, NP, ESTEP):
+            items.append(('point', ('G', i, j), (ctx.gx[i], ctx.gy[j])))
+    for ci in sorted(ctx.nbr[ti]) + [ti]:
+        for a in range(NLOC):
+            for b in range(NLOC):
+                items.append(('point', ('C', ctx.labels[ci], a, b), (ctx.loc[ci][0][a], ctx.loc[ci][1][b])))
+        p = interior_point(ctx, ci)
+        if p is not None:
+            items.append(('block', ctx.labels[ci], p, elevations(ctx, ci)))
+    return items
+
+
+def run_items(ctx, items, tier, rec):
+    for it in items:
+        if it[0] == 'lines':
+            do_lines(ctx, 0, ctx.nline * ctx.nline, tier, rec)
+        elif it[0] == 'point':
+            do_point(ctx, it[1], it[2], tier, rec, pairs=False, all_guesses=False, tag='points')
+        else:
+            _, lab, p, zs = it
+            inside, ratio = ctx.mesh.locate(p)
+            if ratio < 1.0 or len(inside) > 1:
+                rec.count('3d_positions_excluded_near_edge')
+                continue
+            ci = inside[0] if inside else None
+            for z, zc in zs:
+                if ci is not None and (min(abs(z - b) for _, b in ctx.lay) < 0.5 * ctx.dz
+                                       or abs(z - ctx.surface[ci]) < 0.5 * ctx.dz):
+                    continue
+                for q in (False, True):
+                    viol, oc = block_query(ctx, ci, p, z, zc, q)
+                    rec.case((ctx.name, 'B@', lab, z, q), nontrivial=True, outcome='3d-' + oc)
+                    for sig, what in viol:
+                        rec.violation(sig, what, {'kind': 'block', 'geo': ctx.name, 'tier': tier,
+                                                  'col': None if ci is None else ctx.labels[ci],
+                                                  'p': [p[0], p[1]], 'z': z, 'zclass': zc, 'qtree': q})
+                    if oc == 'timeout':
+                        note_timeout(rec)
+
+
+def run_edit_history(g, kind, which, tier, rec, stop_before_post=False):
+    """query pass (ending in the target column) -> edit -> the same items in reverse order (the target's first), then a
+    pass over the edited geometry's own columns near the edit; reference and aids rebuilt from the edited object."""
+    geo, _ = _library_geometry(g)
+    ctx0 = Ctx(g, NLINE_E, geo=geo)
+    ti = edit_target(ctx0, which)
+    items = edit_items(ctx0, ti)
+    hist = {'edit': kind, 'target': which}
+    run_items(ctx0, items, tier, RecTag(rec, kind + ':' + which, 0, None, 0, 1, hist=dict(hist, stage=0),
+                                        suffix='|after=query', prefix='edit-history'))
+    names_before = dict((c.name, tuple(n.name for n in c.node)) for c in geo.columnlist)
+    apply_edit(ctx0, kind, ti)
+    ctx1 = Ctx(g, NLINE_E, geo=geo, old=names_before)
+    if stop_before_post:
+        return ctx1
+    rec.count('geometry:%s@%s-%s:%s:columns=%d' % (g, kind, which, ctx1.digest, ctx1.n), 1)
+    tag = RecTag(rec, kind + ':' + which, 1, None, 0, 1, hist=dict(hist, stage=1), suffix='|after=query+' + kind,
+                 prefix='edit-history')
+    run_items(ctx1, items[::-1], tier, tag)
+    # the edited geometry's own columns around the edit: every column that is new or touches the old target outline
+    x0 = min(p[0] for p in ctx0.polys[ti]); x1 = max(p[0] for p in ctx0.polys[ti])
+    y0 = min(p[1] for p in ctx0.polys[ti]); y1 = max(p[1] for p in ctx0.polys[ti])
+    for ci in range(ctx1.n):
+        pl = ctx1.polys[ci]
+        if max(p[0] for p in pl) < x0 or min(p[0] for p in pl) > x1 or max(p[1] for p in pl) < y0 \
+                or min(p[1] for p in pl) > y1:
+            continue
+        for a in range(NLOC):
+            for b in range(NLOC):
+                do_point(ctx1, ('N', ctx1.labels[ci], a, b), (ctx1.loc[ci][0][a], ctx1.loc[ci][1][b]), tier, tag,
+                         pairs=False, all_guesses=False, tag='points')
+        do_blocks(ctx1, ci, tier, tag)
+    return None
+
+
+# ---- surface routes ---------------------------------------------------------------------------
+
+def surface_route_geometry(g, route):
+    """A geometry whose column surfaces (and cached col.num_layers) were reached by the given route.  The final
+    surfaces are the same function of the column's rank whatever the route."""
+    from mulgrids import mulgrid
+    import numpy as np
+    with quiet():
+        if g == 'rect43':
+            geo = mulgrid().rectangular([100.] * 4, [100.] * 3, [10., 10., 20., 20., 40.], atmos_type=2)
+        else:
+            geo = mulgrid(os.path.join(core.REPO, 'tests', 'mulgrid', g + '.dat'))
+
+    def levels(geo):
+        top = float(geo.layerlist[0].bottom)
+        return top, top - float(geo.layerlist[-1].bottom)
+
+    def assign(geo, fracs, refresh):
+        top, depth = levels(geo)
+        for i, col in enumerate(geo.columnlist):
+            col.surface = top - fracs[i % len(fracs)] * depth
+            if refresh:
+                geo.set_column_num_layers(col)
+        geo.setup_block_name_index()
+        geo.setup_block_connection_name_index()
+    low = [0.35, 0.55, 0.8, 0.95]
+    high = [-0.05, 0.03, 0.12, 0.3, 0.45]
+    with quiet():
+        if route == 'fresh-assigned':
+            pass
+        elif route == 'file-raised':
+            if g == 'rect43':
+                assign(geo, low, True)
+                fn = os.path.join(core.scratch(), 'c12_%s_low.dat' % g)
+                geo.write(fn)
+                geo = mulgrid(fn)
+                os.remove(fn)
+            # (a shipped file is taken as read: its SURFA section gave the columns their num_layers)
+        elif route == 'lowered-raised':
+            assign(geo, low, True)
+        elif route == 'refine_layers-raised':
+            assign(geo, low, True)
+            geo.refine_layers()
+        elif route == 'copy_layers_from-raised':
+            assign(geo, low, True)
+            top, depth = levels(geo)
+            other = mulgrid().rectangular([10.], [10.], [depth / 8.] * 8, origin=[0., 0., top])
+            geo.copy_layers_from(other)
+        else:
+            raise ValueError(route)
+        # finally the surfaces are set by plain assignment (col.surface = ...), followed by the index set-up
+        assign(geo, high, False)
+    return geo
+
+
+def run_surface_route(g, route, tier, rec, only_ctx=False):
+    geo = surface_route_geometry(g, route)
+    ctx = Ctx(g, NLINE_E, geo=geo)
+    if only_ctx:
+        return ctx
+    tag = RecTag(rec, route, 0, None, 0, 1, hist={'route': route}, suffix='|route=' + route, prefix='surface-route')
+    for ci in range(ctx.n):
+        do_blocks(ctx, ci, tier, tag)
+    return None
+
+
 def run_unit(unit, tier, rec):
     try:
         _run_unit(unit, tier, rec)
@@ -893,6 +1123,14 @@ def run_unit(unit, tier, rec):
 def _run_unit(unit, tier, rec):
     core.load_library()
     kind, g, lo, hi = unit
+    if kind == 'E':
+        run_edit_history(g, lo, hi, tier, rec)
+        return
+    if kind == 'S':
+        run_surface_route(g, lo, tier, rec)
+        if lo == SROUTES[1]:
+            rec.sample({'surface_route': lo, 'geometry': g}, force=False)
+        return
     if kind[0] == 'H':
         run_history(g, kind[1:], lo, hi, tier, rec)
         if lo == 0:
@@ -949,6 +1187,20 @@ def replay(case):
     core.load_library()
     tier = case.get('tier', 'thorough')
     h = case.get('hist')
+    if h and 'edit' in h:
+        c2 = dict(case)
+        del c2['hist']
+        if h['stage'] == 0:
+            geo, _ = _library_geometry(case['geo'])
+            ctx = Ctx(case['geo'], NLINE_E, geo=geo)
+            return [(sig + '|after=query', what) for sig, what in _replay_on(ctx, c2)]
+        ctx = run_edit_history(case['geo'], h['edit'], h['target'], tier, core.Rec(), stop_before_post=True)
+        return [(sig + '|after=query+' + h['edit'], what) for sig, what in _replay_on(ctx, c2)]
+    if h and 'route' in h:
+        c2 = dict(case)
+        del c2['hist']
+        ctx = run_surface_route(case['geo'], h['route'], tier, core.Rec(), only_ctx=True)
+        return [(sig + '|route=' + h['route'], what) for sig, what in _replay_on(ctx, c2)]
     if h:
         # re-create the state: the same passes and transforms on a fresh object, then this one case
         ctx = run_history(case['geo'], h['seq'], h['part'], h['nparts'], tier, core.Rec(), stop_at=h['stage'])
@@ -967,7 +1219,7 @@ def _replay_on(ctx, case):
         viol, oc, got = point_query(ctx, p, T, case['spec'], case['aidclass'])
         return viol
     if case['kind'] == 'block':
-        ci = ctx.index[case['col']]
+        ci = ctx.index[case['col']] if case['col'] is not None else None
         p = (float(case['p'][0]), float(case['p'][1]))
         viol, oc = block_query(ctx, ci, p, float(case['z']), case['zclass'], case['qtree'])
         return viol
